@@ -12,6 +12,7 @@ C11 requests.
 `reread w=<tok>,… v=<tok>,…`   the output file as the plain walker / as Vela's reader sees it; answer `same <n>` or `differ <pos> <w> <v>`
 `alignidx from=<i>/<i>|<w>|<b> to=<i>|<w>|<b> n=<len>`   model of reader_util.align_inputs_indices applied to [0..n);
   answer `ok <perm>` or `err:<kind>`
+`alignrt n=<len> got=ok,<i>,…|err:<kind>`   is the real round trip on [0..n) the identity? answer `1` / `0`
 `tensororder <namehex>,…`   model of the writer's tensor order: positions sorted by (name, enumeration index)
 -/
 namespace VelaVerif.Handlers.Preserve
@@ -119,6 +120,13 @@ def handle : List String → Option String
     match OpIndices.alignInputs f t (List.range n) with
     | .ok l => some ("ok " ++ joinNats l)
     | .error e => some ("err:" ++ e)
+  | "alignrt" :: toks => do
+    -- the real reader-then-writer alignment applied to [0..n): `got` = `ok,<i>,<i>…` or `err:<kind>`; must be the identity
+    let n ← parseNat? (← kv toks "n")
+    let got ← kv toks "got"
+    match got.splitOn "," with
+    | "ok" :: l => do some (boolStr ((← parseNats (l.filter (· ≠ ""))) == List.range n))
+    | _ => some "0"
   | ["tensororder", names] =>
     some (joinNats (OpIndices.writerOrder (fun (a b : String) => decide (a ≤ b)) (names.splitOn ",")))
   | _ => none
